@@ -140,6 +140,9 @@ class ExprMixin:
                   z3.ForAll([i], z3.Implies(z3.And(0 <= i, i < b.n), arr[a.n + i] == b.arr[i])))
         res = SeqV(elem, arr, a.n + b.n)
         self.seq_lemmas(res, a, a.n, st)
+        for f in self.reg.specfuns.values():
+            if getattr(f, 'concat_lemma', None) and f.params[0][1] == TSeq(elem):
+                st.assume(f.concat_lemma(arr, a.arr, a.n, b.arr, b.n))
         return res
 
     def seq_slice(self, s, lo, hi, st):
@@ -443,6 +446,13 @@ class ExprMixin:
             return z3.Select(st.smem(c.z, sort_of(c.ty.args[0])), self.coerce(x, c.ty.args[0], st).z)
         if ck == 'dict':
             return z3.Select(st.ddom(c.z, sort_of(c.ty.args[0])), self.coerce(x, c.ty.args[0], st).z)
+        if ck == 'fset':
+            return z3.Select(c.z, self.coerce(x, c.ty.args[0], st).z)
+        if ck == 'obj':
+            m = self.reg.find_method(c.ty.args[0], '__contains__')
+            if m is not None:
+                res = list(self.apply_contract(m, [c, x], {}, st, node))
+                return self.truthy(res[0][0], st)
         if ck in ('list', 'seq'):
             s = self.seq_of(c, st)
             i = fresh('i_in', I)
@@ -636,22 +646,23 @@ class ExprMixin:
 
     def quantified(self, gexp, st, universal):
         """all(...)/any(...) over a generator expression with pure body -> ForAll / Exists"""
-        if len(gexp.generators) != 1:
-            _unsup('nested comprehension in quantifier', gexp)
-        gen = gexp.generators[0]
-        vars_, rng, env, _ = self.bind_comprehension(gen, st)
         s2 = st.copy()
-        s2.env.update(env)
         n0 = len(s2.pc)
-        conds = [self.truthy(self.ev1(c, s2), s2) for c in gen.ifs]
+        vars_all, guards = [], []
         was = self.specmode
         self.specmode += 1          # body is evaluated as a formula: no obligations inside quantifiers
         try:
+            for gen in gexp.generators:
+                vars_, rng, env, _ = self.bind_comprehension(gen, s2)
+                s2.env.update(env)
+                vars_all += vars_
+                guards.append(rng)
+                guards += [self.truthy(self.ev1(c, s2), s2) for c in gen.ifs]
             body = self.truthy(self.ev1(gexp.elt, s2), s2)
         finally:
             self.specmode = was
         sides = s2.pc[n0:]
-        guard = z3.And(rng, *conds, *sides) if (conds or sides) else rng
+        guard = z3.And(*guards, *sides)
         if universal:
-            return z3.ForAll(vars_, z3.Implies(guard, body))
-        return z3.Exists(vars_, z3.And(guard, body))
+            return z3.ForAll(vars_all, z3.Implies(guard, body))
+        return z3.Exists(vars_all, z3.And(guard, body))
